@@ -513,17 +513,15 @@ theorem mem_namedEntries_lastWins (B1 B2 : List RawCell) (c : RawCell) (n : Stri
     rcases List.mem_map.mp hp with ⟨c', hc', rfl⟩
     exact hlast c' hc' hk
 
-theorem icEntries_merge (B : List RawCell) : icEntries (parse .merge B) = entriesOfKey (B.map cell) none := by
+theorem icEntries_merge (B : List RawCell) :
+    icEntries (parse .merge B) =
+      if none ∈ (B.map cell).map (·.1) then some (entriesOfKey (B.map cell) none) else none := by
   unfold icEntries parse mkDelayFile
   simp only
   rw [dictGet_start_merge]
-  split
-  · rfl
-  · rename_i h
-    rw [entriesOfKey_nil_of_not_mem _ _ h]; rfl
 
 theorem icEntries_lastWins (B : List RawCell) :
-    icEntries (parse .lastWins B) = (((B.map cell).reverse.find? (·.1 == none)).map (·.2)).getD [] := by
+    icEntries (parse .lastWins B) = ((B.map cell).reverse.find? (·.1 == none)).map (·.2) := by
   unfold icEntries parse mkDelayFile
   simp only
   rw [dictGet_start_lastWins]
@@ -609,5 +607,25 @@ theorem not_prefix_of_head (q s : List Char) (hq : q.head? = some '(') (h : s.he
       have : c ≠ '(' := by intro hc; apply h; simp [hc]
       simp [List.isPrefixOf]
       exact fun h => absurd h.symm this
+
+/-! ## value conventions: definitional restatements (kept as lemmas; formerly listed in Props/C14.lean) -/
+/-- `(a::)`, `(::c)`: an empty field reads as 0 -/
+theorem triple_empty_fields (a c : Val) :
+    triple [some a, none, none] = [a, 0, 0] ∧ triple [none, none, some c] = [0, 0, c] ∧
+    triple [none, none, none] = [0, 0, 0] := ⟨rfl, rfl, rfl⟩
+
+/-- `()` gives the empty list, which both annotation loops replace by three zeros -/
+theorem triple_unit : triple [] = [] ∧ norm (triple []) = [0, 0, 0] := ⟨rfl, rfl⟩
+
+theorem norm_full (a b c : Val) : norm [a, b, c] = [a, b, c] := rfl
+
+/-- a single value list applies to both output polarities -/
+theorem sanitize_single (a b : String) (t : RawTriple) :
+    (sanitize ⟨a, b, [t]⟩).r = triple t ∧ (sanitize ⟨a, b, [t]⟩).f = triple t := ⟨rfl, rfl⟩
+
+/-- two value lists: first = rising output, second = falling output -/
+theorem sanitize_pair (a b : String) (t u : RawTriple) :
+    (sanitize ⟨a, b, [t, u]⟩).r = triple t ∧ (sanitize ⟨a, b, [t, u]⟩).f = triple u := ⟨rfl, rfl⟩
+
 
 end KV.Sdf
